@@ -17,7 +17,7 @@ import (
 // A new fast path gated only by data order or contiguity flags (which a lazy transpose or a
 // mask does not clear) is reported.
 
-var lcPrims = regexp.MustCompile(`\b(copyDense|copyDenseSliced|copyArray|copyArraySliced|copySliced)\(|storage\.(Copy|CopySliced|Fill)\(|\.Memcpy\(|\bcopy\([^)]*\.(hdr\(\)\.Raw|Raw\b|arr\(\)|Data\(\)|Float64s\(\)|Float32s\(\)|Ints\(\)|byteSlice\(\)|<T>s\(\))`)
+var lcPrims = regexp.MustCompile(`\b(copyDense|copyDenseSliced|copyArray|copyArraySliced|copySliced)\(|\.E\.[A-Z][A-Za-z]*\(|storage\.(Copy|CopySliced|Fill)\(|\.Memcpy\(|\bcopy\([^)]*\.(hdr\(\)\.Raw|Raw\b|arr\(\)|Data\(\)|Float64s\(\)|Float32s\(\)|Ints\(\)|byteSlice\(\)|<T>s\(\))`)
 
 var lcGenerated = map[string]bool{"defaultengine_arith.go": true, "defaultengine_cmp.go": true, "defaultengine_unary.go": true, "defaultengine_minmax.go": true, "defaultengine_misc.go": true,
 	"dense_generated.go": true, "array_getset.go": true, "dense_maskcmp_methods.go": true}
@@ -56,6 +56,14 @@ func LCSites(rc *RC) (map[string]string, map[string][]ir.Path) {
 						if i := strings.Index(name, "("); i >= 0 {
 							name = name[:i]
 						}
+						// the flat kernels of internal/execution walk whole buffers position by
+						// position; their Iter variants are given each buffer's own iterator
+						if i := strings.LastIndex(name, ".E."); i >= 0 {
+							name = name[i+1:]
+						}
+						if strings.HasPrefix(name, "E.") && strings.Contains(name, "Iter") {
+							continue
+						}
 						count[name]++
 						key := fmt.Sprintf("%s#%s%d", fi.Key, name, count[name])
 						sites[key] = rc.P.Pos(n.Pos)
@@ -81,7 +89,7 @@ func LCSites(rc *RC) (map[string]string, map[string][]ir.Path) {
 	return sites, paths
 }
 
-var lcTwoTensor = regexp.MustCompile(`#(copyDense|copyDenseSliced|copyArray|copyArraySliced)\d+$`)
+var lcTwoTensor = regexp.MustCompile(`#(copyDense|copyDenseSliced|copyArray|copyArraySliced|E\.(?:Add|Sub|Mul|Div|Pow|Mod|Gt|Gte|Lt|Lte|Eq|Ne|MaxBetween|MinBetween)[A-Za-z]*)\d+$`)
 
 var lcAPTransfer = regexp.MustCompile(`\.AP = |\.setAP\(|\.CloneTo\(|\.AP\.o = |\.o = |\.SetAP\(|\.copyMetadata\(`)
 
